@@ -57,7 +57,7 @@ impl AR {
         } else {
             // maybe panic instead? or return NA
             // return std::f64::NAN;
-            dot(data, &self.coeffs[..n])
+            dot(data, &self.coeffs[coeff_len - n..])
         }
     }
 
